@@ -10,7 +10,7 @@ order and multiplicity in which the children's code appears in the bytecode of t
           the payload is generated exactly once (one call / one forward loop over the list), or not at all only
           where the path itself establishes that there is nothing to evaluate
   C01.R2  left to right: on every path the positions are generated in source order; list loops run forward
-  C01.R3  (source order) the declaration order of the payload fields, which R2 uses as source order, agrees with the
+  C01.R4  (source order) the declaration order of the payload fields, which R2 uses as source order, agrees with the
           child positions the lowering reads them from
 
 See c01_sym.py for the path enumeration and its bounds."""
@@ -45,7 +45,7 @@ ZERO_OK = [
     ("Expr::Call", "callee", ("Intrinsic", {"Assert", "ArrayNewOfSize", "ArrayWithValues"}),
      "callee names an intrinsic function, nothing to evaluate"),
     # a lambda expression allocates the closure object; parameters and body are compiled as a separate function
-    ("Expr::Lambda", "params[*].pattern", None, "lambda parameters belong to the separately generated lambda function"),
+    ("Expr::Lambda", "params", None, "lambda parameters belong to the separately generated lambda function"),
     ("Expr::Lambda", "block", None, "the lambda body is generated as a separate function, not at the creation site"),
     # jump-table match on ints / simple enums: arm patterns are literals, variant names or `_`, folded into the table
     ("Expr::Match", "arms[*].pattern", ("SourceType", {"Enum", "UInt8", "Int32", "Int64"}),
@@ -53,6 +53,8 @@ ZERO_OK = [
     # `let p = e else { .. }`: with an irrefutable pattern (destructor returns no mismatch label) the else block is dead
     ("Stmt::Let", "else_expr", ("result", "none"),
      "irrefutable pattern: the destructor reported no mismatch label, the else block can never run"),
+    # `for p in it` over unit elements: the loop variable has no value (the handler tests `.is_unit()` on the value type)
+    ("Expr::For", "pattern", ("call", "is_unit"), "elements of unit type: there is no value to destructure"),
     # `let p;` without initialiser: nothing to destructure, nothing can mismatch
     ("Stmt::Let", "pattern", ("absent", "expr"), "declaration without initialiser: no value to destructure"),
     ("Stmt::Let", "else_expr", ("absent", "expr"), "declaration without initialiser: nothing can mismatch"),
@@ -107,19 +109,30 @@ class Analysis:
                                # sinks or inspections, never inlined
                                no_inline_prefixes=(R.module + "::bytecode::",) + tuple(
                                    sorted(set(p.rsplit("::", 1)[0] + "::" for p in R.pattern_sinks))))
-        enums = set(c[0] for (_t, _s, c, _r) in ZERO_OK if c and c[0] not in ("result", "absent"))
+        enums = set(c[0] for (_t, _s, c, _r) in ZERO_OK if c and c[0] not in ("result", "absent", "call"))
+        calls = set(c[1] for (_t, _s, c, _r) in ZERO_OK if c and c[0] == "call")
 
         def protected(k, v):
             if k[0] == "enumval" and v[0] == "in":
                 return v[1].rsplit("::", 1)[0].rsplit("::", 1)[-1] in enums
             if k[0] == "opt" and k[1][0] == "ad":
                 return k[1][1].startswith("result of")
+            if k[0] == "boolval" and k[1][0] == "sym" and isinstance(k[1][1], tuple) and len(k[1][1]) == 2:
+                return k[1][1][1] in calls
             return False
         self.interp.protected = protected
         self.paths = {}         # variant tag -> [State]
         self.handlers = {}      # variant tag -> handler fn
 
     def run(self):
+        import gc
+        gc.disable()        # millions of small immutable tuples, no cycles: the collector only costs time here
+        try:
+            self._run()
+        finally:
+            gc.enable()
+
+    def _run(self):
         R = self.R
         for (fn, argi, enum) in ((R.expr_dispatch, R.expr_arg, R.E), (R.stmt_dispatch, R.stmt_arg, R.S)):
             b = self.c.hir[fn]
@@ -223,6 +236,12 @@ class Checker:
                 if k[0] == "opt" and k[1][0] == "ad" and k[1][1].startswith("result of") and v == arg:
                     return True
             return False
+        if kind == "call":
+            for k, v in self.cons.items():
+                if k[0] == "boolval" and v is True and k[1][0] == "sym" and isinstance(k[1][1], tuple) \
+                        and len(k[1][1]) == 2 and k[1][1][1] == arg:
+                    return True
+            return False
         if kind == "absent":
             for k, v in self.cons.items():
                 if k[0] == "none" and k[1] == P and v is True and accstr(k[2]).endswith(arg):
@@ -241,6 +260,9 @@ class Checker:
         cons = ctx_cons if ctx_cons is not None else self.cons
         name = self.slotname(tag, it.acc)
         full = "%s.%s" % (tag, name) if not P else "%s → %s.%s" % (pathstr(P), tag, name)
+        top = (P + (it.acc,))[0]
+        group = "%s.%s" % (self.tag, self.slotname(self.tag, top)) + (
+            " (through %s)" % "/".join(sorted(set(a[0].split("::")[1] for a in P))) if P else "")
         if isinstance(it, Single):
             child = P + (it.acc,)
             # optional child that is absent
@@ -254,7 +276,7 @@ class Checker:
                 enum, vn = self.enum_of_tag(v[1])
                 sub = self.m.items(enum, vn)
                 if not sub:
-                    self.accepted.append((full, "child is %s (no children to evaluate)" % v[1], ""))
+                    self.accepted.append((group, "child is %s (no children to evaluate)" % v[1], ""))
                     self.how[full] = "child is %s: nothing to generate" % v[1]
                     return True
                 # known variant with children: all of them must be harmlessly absent
@@ -269,7 +291,7 @@ class Checker:
                     return True
         for (ztag, zslot, cond, reason) in ZERO_OK:
             if ztag == tag and zslot == name and self.cond_holds(cond, tag, P):
-                self.accepted.append((full, reason, cond))
+                self.accepted.append((group, reason, cond))
                 self.how[full] = "not generated: %s" % reason
                 return True
         return False
@@ -396,7 +418,19 @@ class Checker:
                 other.append((i, ev))
         if other:
             raise Unint("element of %s generated outside a loop over it" % full)
-        subnames = ["%s.%s" % (tag, self.slotname(tag, s.acc)) for s in S.flat_slots(it.subs)]
+        # positions inspected through a computed index on this path (`list[i].field` tested, not generated)
+        inspected = set()
+        for k in (cons if cons is not None else self.cons):
+            if k[0] == "none" and k[1] == P and len(k[2]) > n and k[2][:n] == it.acc and k[2][n] == ("#", "?"):
+                for s in S.flat_slots(it.subs):
+                    if s.acc[n + 1:] == k[2][n + 1:] and (tag, self.slotname(tag, s.acc)) in DYN_UNDECIDED:
+                        inspected.add(self.slotname(tag, s.acc))
+        if inspected and not dyn:
+            for nm in inspected:
+                self.undecided.append(("%s.%s" % (tag, nm), DYN_UNDECIDED[(tag, nm)]))
+                self.how["%s.%s" % (tag, nm)] = "NOT DECIDED: " + DYN_UNDECIDED[(tag, nm)]
+            it = ListItem(it.acc, [x for x in it.subs
+                                   if not (isinstance(x, Single) and self.slotname(tag, x.acc) in inspected)])
         if dyn:
             und = [s for s in S.flat_slots(it.subs) if (tag, self.slotname(tag, s.acc)) in DYN_UNDECIDED]
             # which sub-positions do the dyn events touch?
@@ -410,6 +444,10 @@ class Checker:
                 if t not in DYN_UNDECIDED:
                     raise Unint("%s.%s generated through a computed index" % t)
                 self.undecided.append(("%s.%s" % t, DYN_UNDECIDED[t]))
+                self.how["%s.%s" % t] = "NOT DECIDED: " + DYN_UNDECIDED[t]
+            skip = set(t[1] for t in touched)
+            it = ListItem(it.acc, [x for x in it.subs
+                                   if not (isinstance(x, Single) and self.slotname(tag, x.acc) in skip)])
             if not loops and not idx:
                 return
         if loops and idx:
@@ -502,14 +540,6 @@ class Checker:
         if isinstance(item, Single):
             return Single(item.acc[:n] + (mark,) + item.acc[n + 1:], item.kind)
         return ListItem(item.acc[:n] + (mark,) + item.acc[n + 1:], [self.subst(s, n, mark) for s in item.subs])
-
-
-def flatten_check(trace):
-    """top-level events only; `partial`/`last` loop events (loops left early) cannot be attributed"""
-    for ev in trace:
-        if ev[0] == "loop" and ev[2] and ev[2][0][0] in ("partial", "last") if False else False:
-            pass
-    return list(enumerate(trace))
 
 
 def describe_path(st):
@@ -606,24 +636,41 @@ def rules_r1_r2(chk, A, R):
                             sample={"variant": tag, "first": na, "then": nb, "paths": checked_paths})
             for it in all_lists(items):
                 lists += 1
-                r2.instance("%s:%s forward" % (tag, Checker(m, sts[0], tag).slotname(tag, it.acc)), nontrivial=True)
+                lname = Checker(m, sts[0], tag).slotname(tag, it.acc)
+                r2.instance("%s:%s forward" % (tag, lname), nontrivial=True)
+                for a, b in zip(it.subs, it.subs[1:]):
+                    pairs += 1
+                    r2.instance("%s:%s<%s" % (tag, Checker(m, sts[0], tag).slotname(tag, a.acc),
+                                             Checker(m, sts[0], tag).slotname(tag, b.acc)), nontrivial=True)
             for (rule, slot, kind), iss in sorted(issues.items()):
                 r = r1 if rule == "R1" else r2
                 r.violation("%s:%s:%s" % (handler, slot, kind),
                             "%s — path: %s" % (iss.text, describe_path(iss.st)),
                             "%s:%s" % (A.c.hir[handler]["file"], A.c.hir[handler]["line"]) if handler in A.c.hir else None)
-    r1.floor("variants with at least one complete path through their handler", variants_with_paths, 26)
+    r1.floor("variants with at least one complete path through their handler", variants_with_paths, 29)
     r1.floor("payload positions checked", slots_seen, 38)
-    r1.floor("non-panicking handler paths checked", paths_total, 150)
-    r2.floor("adjacent position pairs checked for order", pairs, 14)
-    r2.floor("list positions checked for a forward pass", lists, 8)
-    r1.floor("generator functions inlined by the path enumeration", len(A.interp.inlined), 60)
-    for (slot, reason), path in sorted(accepted.items()):
-        r1.observe("accepted zero-generation: %s — %s [path: %s]" % (slot, reason, path))
-    for (slot, what), handler in sorted(assumed.items()):
-        r1.observe("arity assumption: %s — %s" % (slot, what))
+    r1.floor("non-panicking handler paths checked", paths_total, 1500)
+    r2.floor("adjacent position pairs checked for order", pairs, 17)
+    r2.floor("list positions checked for a forward pass", lists, 7)
+    r1.floor("generator functions inlined by the path enumeration", len(A.interp.inlined), 100)
     for (slot, why), handler in sorted(undecided.items()):
         r1.observe("NOT DECIDED: %s — %s" % (slot, why))
+    acc2 = {}
+    for (slot, reason), path in sorted(accepted.items()):
+        base = slot.split(" (through")[0]
+        e = acc2.setdefault((base, reason), [path, False])
+        if slot != base:
+            e[1] = True
+    for (slot, reason), (path, nested) in sorted(acc2.items()):
+        r1.observe("accepted zero-generation: %s — %s%s [e.g. path: %s]" % (
+            slot, reason, " (also below parentheses / field chains the handler looks through)" if nested else "",
+            path[:260]))
+    seen_as = set()
+    for (slot, what), handler in sorted(assumed.items()):
+        k = (slot.split(" → ")[-1], what)
+        if k not in seen_as:
+            seen_as.add(k)
+            r1.observe("arity assumption: %s — %s" % k)
     if place_tags:
         r1.observe("paths dropped as infeasible (assignment target variant the type checker rejects in %s; accepted: "
                    "%s): %d" % (place_fn, ", ".join(sorted(place_tags)), dropped_place))
@@ -667,7 +714,7 @@ def expand_uloops(trace):
 # ---------------------------------------------------------------------------------------------------------------------
 def rule_r3(chk, F, c, R, A):
     """declaration order of the payload fields = order of the child positions the lowering reads them from"""
-    r3 = chk.rule("C01.R3", "the declaration order of id-carrying payload fields (used as source order by R2) agrees "
+    r3 = chk.rule("C01.R4", "the declaration order of id-carrying payload fields (used as source order by R2) agrees "
                             "with the positions of the syntax-tree children they are lowered from")
     try:
         p = F.crate("dora_parser")
@@ -739,7 +786,7 @@ def rule_r3(chk, F, c, R, A):
                              "fields %s are declared in the order %s but lowered from syntax children at positions %s: "
                              "R2's source order would be wrong for this variant" % (names, declared, lst),
                              "%s:%s" % (c.hir[lower_fn]["file"], c.hir[lower_fn]["line"]))
-    r3.floor("variants whose same-class children have derivable positions", checked, 4)
+    r3.floor("variants whose same-class children have derivable positions", checked, 3)
     r3.observe("cross-class order (callee/object before the argument list, scrutinee before arms, `for` pattern before "
                "the iterated expression, `let` pattern before the initialiser) is not derivable from the accessors; "
                "R2 uses declaration order with the two reasoned overrides %s" % sorted(ORDER_OVERRIDE))
@@ -765,11 +812,3 @@ def accessor_position(body):
             if hirq.is_node(b2) and b2[0] == "mcall" and b2[3] == "children":
                 return k
     return None
-
-
-# ---------------------------------------------------------------------------------------------------------------------
-if __name__ == "__main__":          # debugging aid: python3 rules/c01.py [variant-substring]
-    import os
-    V = os.path.dirname(os.path.dirname(os.path.abspath(__file__)))
-    sys.path.insert(0, os.path.join(V, "lib"))
-    sys.path.insert(0, V)
